@@ -860,6 +860,15 @@ func sdkRows() []srow {
 				rows = append(rows, srow{comp, key, b, false, opt, false, ""})
 			}
 		}
+		if comp == "spanlimits" || comp == "loglimits" {
+			// the largest int64: a limit that is never reached (and must not be used to size anything)
+			rows = append(rows, srow{comp, key, "9223372036854775807", false, false, false, ""})
+		}
+		if comp == "loglimits" {
+			// only the OTHER limit is given as an option: this one still comes from its variable
+			rows = append(rows, srow{comp, key, valid, true, false, true, ""})
+			rows = append(rows, srow{comp, key, "", false, false, true, ""})
+		}
 		if comp == "bsp" || comp == "blrp" {
 			rows = append(rows, srow{comp, key, "", false, false, true, ""})
 			rows = append(rows, srow{comp, key, valid, true, false, true, ""})
@@ -1321,6 +1330,13 @@ func runSDKRow(k *vf.Case, r srow) {
 		lopts := []sdklog.LoggerProviderOption{sdklog.WithProcessor(cp)}
 		if r.option {
 			lopts = append(lopts, sdklog.WithAttributeCountLimit(3), sdklog.WithAttributeValueLengthLimit(3))
+		}
+		if r.optBad { // here: "only the other limit is an option"
+			if strings.Contains(r.key, "VALUE_LENGTH") {
+				lopts = append(lopts, sdklog.WithAttributeCountLimit(150))
+			} else {
+				lopts = append(lopts, sdklog.WithAttributeValueLengthLimit(9))
+			}
 		}
 		var lp *sdklog.LoggerProvider
 		if !k.Guard("panic", "NewLoggerProvider "+r.key, func() { lp = sdklog.NewLoggerProvider(lopts...) }) {
